@@ -14,6 +14,11 @@ static KNOWN: OnceLock<Vec<Known>> = OnceLock::new();
 
 fuzz_target!(|data: &[u8]| {
     let prop = PROP.get_or_init(|| {
+        // libfuzzer-sys installs a panic hook that aborts the process on *any* panic, also on the ones the checks
+        // provoke on purpose and catch (a documented "panics if out of bounds"; panics turned into failures): the
+        // harness's own hook (it records the message for the failure signature) replaces it. A failure still ends in
+        // an abort below, which is what libFuzzer records as a crash.
+        vpcheck::core::install_panic_hook();
         let id = std::env::var("FUZZ_PROP").unwrap_or_else(|_| "C01".into());
         vpcheck::find(&id).expect("unknown property in FUZZ_PROP")
     });
@@ -21,10 +26,15 @@ fuzz_target!(|data: &[u8]| {
     let mut ch = Choices::new(data);
     let known = KNOWN.get_or_init(|| vpcheck::driver::load_known(prop.id()));
     let mut cx = Ctx::new(known, false, cfg!(debug_assertions));
-    if let Err(f) = prop.run_case(&mut ch, &mut cx) {
+    let r = match std::panic::catch_unwind(std::panic::AssertUnwindSafe(|| prop.run_case(&mut ch, &mut cx))) {
+        Ok(r) => r,
+        Err(_) => Err(vpcheck::core::Failure { sig: "case/panic".into(), detail: "a panic escaped the check".into() }),
+    };
+    if let Err(f) = r {
         // a failure that carries the signature of a recorded known finding is tolerated, as in the proptest drivers
         if let Err(f) = cx.report(f) {
-            panic!("VIOLATION property={} signature={} detail={}", prop.id(), f.sig, f.detail);
+            eprintln!("VIOLATION property={} signature={} detail={}", prop.id(), f.sig, f.detail);
+            std::process::abort();
         }
     }
 });
